@@ -218,6 +218,15 @@ pub fn gen_security(r: &mut Rng, sec: &str, names: &mut Vec<String>) -> (Vec<Tx>
             }
         }
     }
+    // now and then the user kept both entries of a split: the one for all affiliates and a
+    // per-affiliate one next to it (the split validation refuses THIS security; F-04d)
+    if r.chance(3) {
+        if let Some(i) = rows.iter().position(|t| matches!(t.action_specifics, TxActionSpecifics::Split(_)) && t.affiliate.is_global()) {
+            let mut dup = rows[i].clone();
+            dup.affiliate = Affiliate::default();
+            rows.insert(i + 1, dup);
+        }
+    }
     let init = c.init.map(|(sh, acb)| (sec.to_string(), sh, acb));
     (rows, init)
 }
